@@ -338,12 +338,10 @@ def part_misc(ctx):
     ctx.require(cls.get("component", 0) > 200 and cls.get("string-prefix", 0) > 50, "effective-location classes %s" % cls)
     hw = sorted(by["hw"], key=lambda c: json.dumps(c, sort_keys=True))
     if ctx.quick:
-        # one per (cgroup version, limited?, period) + unlimited
-        keep = {}
-        for c in hw:
-            h = c["hw"]
-            keep.setdefault((h["v"], h["quota"] != 0, h["period"], h["mem"] != 0 if h["quota"] == 50000 else None), c)
-        hw = list(keep.values())[:6]
+        want = [(1, 50000, 50000, 3, 536870912), (2, 50000, 50000, 1, 0), (1, 0, 100000, 3, 0), (2, 0, 50000, 4, 536870912),
+                (2, 200000, 100000, 4, 0), (1, 100000, 100000, 1, 536870912)]
+        hw = [c for c in hw if (c["hw"]["v"], c["hw"]["quota"], c["hw"]["period"], c["hw"]["ncpus"], c["hw"]["mem"]) in want]
+        ctx.require(len(hw) == len(want), "hardware cases selected: %d" % len(hw))
     for k, c in enumerate(hw):
         ctx.case(("hw", json.dumps(c["hw"], sort_keys=True)))
         check_hw_case(ctx, c, ctx.scratch("worlds"), k)
